@@ -13,7 +13,7 @@ if not os.environ.get("VERIF_DEBUG"):
     os.dup2(devnull.fileno(), 2)
 
 import asynq
-from asynq import ConstFuture, async_call, async_proxy
+from asynq import ConstFuture, ErrorFuture, async_call, async_proxy, result
 from asynq import asynq as A
 from asynq.batching import DebugBatchItem
 from asynq.decorators import (get_async_fn, get_async_or_sync_fn, has_async_fn, is_async_fn, is_pure_async_fn,
@@ -27,6 +27,14 @@ def child(x):
     return x + 100
 
 
+class VErr(Exception):
+    """what a failing body raises; the payload says which body ran with which bound object and arguments"""
+
+    def __init__(self, payload):
+        Exception.__init__(self, repr(payload))
+        self.payload = payload
+
+
 class Foreign(object):
     """a foreign synchronous wrapper (think: tracing decorator of another library): exposes the wrapped callable as
     `.fn`, has no `asynq` / `is_pure_async_fn` of its own, its call is the direct call of what it wraps"""
@@ -38,8 +46,9 @@ class Foreign(object):
         return self.fn(*args, **kwargs)
 
 
-def build(deco, defk, bodyk):
-    """-> (env, LOG): env holds f (function) or C / Sub / inst / subinst / falsy with the attribute `meth`"""
+def build(deco, defk, bodyk, ending="return", fail=0):
+    """-> (env, LOG): env holds f (function) or C / Sub / inst / subinst / falsy with the attribute `meth`.
+    ending: the asynq bodies end with `return x` or with `result(x); return`; fail: every body raises VErr instead"""
     LOG = []
     env = {}
 
@@ -54,9 +63,11 @@ def build(deco, defk, bodyk):
         return "other:%s" % type(first).__name__
 
     def res(which, t, a, b, k, extra):
+        if fail:
+            raise VErr([which, t, a, b, k, extra])
         return [which, t, a, b, k, extra]
 
-    def mk(which, bk, has_first, log=True, ret=res):
+    def mk(which, bk, has_first, log=True, ret=res, end="return"):
         def plain(t, a, b, k):
             if log:
                 LOG.append([which, t, [a, b, k]])
@@ -77,41 +88,72 @@ def build(deco, defk, bodyk):
         if has_first:
             if bk == "plain":
                 def body(first, a, b=20, *, k=30):
-                    return plain(tok(first), a, b, k)
+                    v = plain(tok(first), a, b, k)
+                    if end == "result":
+                        result(v)
+                        return
+                    return v
             elif bk == "gen":
                 def body(first, a, b=20, *, k=30):
-                    return (yield from gen(tok(first), a, b, k))
+                    v = yield from gen(tok(first), a, b, k)
+                    if end == "result":
+                        result(v)
+                        return
+                    return v
             else:
                 def body(first, a, b=20, *, k=30):
-                    return (yield from batch(tok(first), a, b, k))
+                    v = yield from batch(tok(first), a, b, k)
+                    if end == "result":
+                        result(v)
+                        return
+                    return v
         else:
             if bk == "plain":
                 def body(a, b=20, *, k=30):
-                    return plain("none", a, b, k)
+                    v = plain("none", a, b, k)
+                    if end == "result":
+                        result(v)
+                        return
+                    return v
             elif bk == "gen":
                 def body(a, b=20, *, k=30):
-                    return (yield from gen("none", a, b, k))
+                    v = yield from gen("none", a, b, k)
+                    if end == "result":
+                        result(v)
+                        return
+                    return v
             else:
                 def body(a, b=20, *, k=30):
-                    return (yield from batch("none", a, b, k))
+                    v = yield from batch("none", a, b, k)
+                    if end == "result":
+                        result(v)
+                        return
+                    return v
         return body
 
     has_first = defk in ("method", "classmethod")
     desc = {"function": lambda x: x, "method": lambda x: x, "classmethod": classmethod, "staticmethod": staticmethod}[defk]
     if deco in ("proxy_task", "proxy_sync"):
         # the proxy (a plain function that is logged) hands over to a task whose body is of the requested kind
-        work = A()(mk("async", bodyk, False, log=False))
+        work = A()(mk("async", bodyk, False, log=False, end=ending))
 
         @A()
         def inner(t, a, b, k):
-            r = yield work.asynq(a, b, k=k)
+            try:
+                r = yield work.asynq(a, b, k=k)
+            except VErr as e:
+                e.payload[1] = t
+                raise
             return [r[0], t] + r[2:]
 
         body = mk("async", "plain", has_first, ret=lambda which, t, a, b, k, e: inner.asynq(t, a, b, k))
     elif deco == "proxy_const":
-        body = mk("async", "plain", has_first, ret=lambda which, t, a, b, k, e: ConstFuture(res(which, t, a, b, k, e)))
-    else:
+        body = mk("async", "plain", has_first, ret=lambda which, t, a, b, k, e: ErrorFuture(VErr([which, t, a, b, k, e])) if fail
+                  else ConstFuture(res(which, t, a, b, k, e)))
+    elif deco == "plain":
         body = mk("async", bodyk, has_first)
+    else:
+        body = mk("async", bodyk, has_first, end=ending)
     sync_body = mk("sync", "plain", has_first)
     if deco == "plain":
         f = desc(body)
@@ -125,7 +167,7 @@ def build(deco, defk, bodyk):
         f = A(sync_fn=desc(sync_body))(desc(body))      # sync_fn of the same descriptor kind, as in asynq's tests
     elif deco == "proxy_sync":
         f = async_proxy(sync_fn=sync_body)(desc(body))  # a plain function receiving the bound object
-    elif deco == "mad":
+    elif deco in ("mad", "mad_done", "mad_const"):
         inner_f = A()(desc(body))
 
         @A(pure=True)
@@ -133,11 +175,26 @@ def build(deco, defk, bodyk):
             v = yield inner_f.asynq(*args, **kwargs)
             return ["wrapped", v]
 
-        f = make_async_decorator(inner_f, wrapper_fn, "wrapped")
+        def wrapper_done(*args, **kwargs):      # hands back a task that is ALREADY COMPUTED (value or error)
+            t = wrapper_fn(*args, **kwargs)
+            try:
+                t.value()
+            except VErr:
+                pass
+            return t
+
+        def wrapper_const(*args, **kwargs):     # hands back a ConstFuture / an ErrorFuture
+            try:
+                v = inner_f(*args, **kwargs)
+            except VErr as e:
+                return ErrorFuture(e)
+            return ConstFuture(["wrapped", v])
+
+        f = make_async_decorator(inner_f, {"mad": wrapper_fn, "mad_done": wrapper_done, "mad_const": wrapper_const}[deco], "wrapped")
     elif deco == "dedup":
         f = deduplicate()(A()(desc(body)))
     elif deco == "aretry":
-        f = aretry(Exception)(A()(desc(body)))
+        f = aretry(KeyError)(A()(desc(body)))     # VErr is not retried (retrying is C14's subject)
     elif deco == "alru":
         f = alru_cache()(A()(desc(body)))
     elif deco == "acpi":
@@ -184,32 +241,61 @@ def access(env, defk, via, wrap):
     return obj, pre
 
 
-def call(obj, conv, pos, kw, want_future):
-    """-> (value, returned_a_future or None)"""
+def direct(obj, conv, pos, kw):
+    """-> (value, 1/0 whether the call returned a future); raises what the call / .value() raises"""
+    if conv == "sync":
+        r = obj(*pos, **kw)
+    elif conv == "asynq":
+        r = obj.asynq(*pos, **kw)
+    elif conv == "get_async_fn":
+        r = get_async_fn(obj)(*pos, **kw)
+    else:
+        r = get_async_or_sync_fn(obj)(*pos, **kw)
+    isf = isinstance(r, FutureBase)
+    return [(r.value() if isf else r), (1 if isf else 0)]
+
+
+def perform(obj, conv, pos, kw, pure):
+    """one call through `conv` from where we stand (top level, or the body of a running task)"""
     if conv in ("sync", "asynq", "get_async_fn", "get_async_or_sync_fn"):
-        if conv == "sync":
-            r = obj(*pos, **kw)
-        elif conv == "asynq":
-            r = obj.asynq(*pos, **kw)
-        elif conv == "get_async_fn":
-            r = get_async_fn(obj)(*pos, **kw)
-        else:
-            r = get_async_or_sync_fn(obj)(*pos, **kw)
-        isf = isinstance(r, FutureBase)
-        return (r.value() if isf else r), (1 if isf else 0)
+        return direct(obj, conv, pos, kw)
     if conv == "yield":
         @A()
         def caller():
-            v = yield (obj(*pos, **kw) if want_future["pure"] else obj.asynq(*pos, **kw))
+            v = yield (obj(*pos, **kw) if pure else obj.asynq(*pos, **kw))
             return v
-        return caller(), None
+        return [caller(), None]
     if conv == "async_call":
         @A()
         def caller2():
             v = yield async_call.asynq(obj, *pos, **kw)
             return v
-        return caller2(), None
+        return [caller2(), None]
     raise ValueError(conv)
+
+
+class Terminated(Exception):
+    pass
+
+
+def call(obj, conv, pos, kw, pure, ctx):
+    """-> [value, returned_a_future or None]; ctx 'task': the call is made from the body of a running task"""
+    if ctx == "top":
+        return perform(obj, conv, pos, kw, pure)
+    box = {}
+
+    @A()
+    def outer():
+        yield child.asynq(0)
+        box["r"] = perform(obj, conv, pos, kw, pure)
+        yield child.asynq(0)
+        box["after"] = True
+        return "outer done"
+
+    out = outer()
+    if out != "outer done" or "after" not in box:
+        raise Terminated("the calling task ended at the nested call with %r" % (out,))
+    return box["r"]
 
 
 def classify(obj):
@@ -219,7 +305,7 @@ def classify(obj):
 
 def run_history(case):
     asynq.scheduler.reset()
-    env, LOG = build(case["deco"], case["defk"], case["body"])
+    env, LOG = build(case["deco"], case["defk"], case["body"], case.get("ending", "return"), case.get("fail", 0))
     env["wrappers"] = {}
     got = []
     for o in case["h"]:
@@ -230,7 +316,10 @@ def run_history(case):
             g["cls"] = classify(obj)
             kw = dict((n, v) for n, v in o["kw"])
             # the yield convention goes through what the classification prescribes (pure: the call itself is the future)
-            v, isf = call(obj, o["conv"], pre + list(o["pos"]), kw, {"pure": o["cls"]["is_pure"] == 1})
+            try:
+                v, isf = call(obj, o["conv"], pre + list(o["pos"]), kw, o["cls"]["is_pure"] == 1, o.get("ctx", "top"))
+            except VErr as e:
+                v, isf = ["err", e.payload], None
             g["out"] = v
             g["fut"] = isf
             g["cls_again"] = classify(obj)      # the helpers memoise on some objects: the answer must not change
@@ -245,7 +334,8 @@ def run_history(case):
 def expected(o):
     r = o["res"]
     base = [r["ran"], r["bound"], r["a"], r["b"], r["k"], r["extra"]]
-    return {"log": [[r["ran"], r["bound"], [r["a"], r["b"], r["k"]]]], "out": ["wrapped", base] if r["wrapped"] else base}
+    out = ["err", base] if r.get("err") else ["wrapped", base] if r["wrapped"] else base
+    return {"log": [[r["ran"], r["bound"], [r["a"], r["b"], r["k"]]]], "out": out}
 
 
 def differs(o, g):
